@@ -30,7 +30,11 @@ func c12Payload(k int) (any, string) {
 func VerifC12Assign() {
 	v, pv := c12Payload(nd.Choice(3))
 	var src, want string
-	switch nd.Choice(8) {
+	switch nd.Choice(10) {
+	case 8: // assigning nil (an unbound name, a missing property) binds nil: the earlier value is gone
+		src, want = "{% assign a = v %}{% assign a = nope %}[{{ a }}]{% assign b = v %}{% assign b = gm.zz %}[{{ b }}]{% if b == nil %}n{% endif %}", "[][]n"
+	case 9: // an empty capture binds the empty string over an earlier value; nil over a captured one
+		src, want = "{% assign a = v %}{% capture a %}{% endcapture %}[{{ a }}]{% capture c %}x{% endcapture %}{% assign c = nil %}[{{ c }}]{% if a == '' %}e{% endif %}", "[][]e"
 	case 6: // a variable assigned from the loop variable keeps that element: pairs of a map and of an ordered map included
 		src = "{% for kv in ym %}{% if forloop.first %}{% assign keep = kv %}{% assign a = v %}{% endif %}{% endfor %}{{ keep[0] }}={{ keep[1] }}[{{a}}]"
 		want = "p=1[" + pv + "]"
